@@ -21,6 +21,10 @@ type Query {
   res: Result
   results: [Result!]!
   grid: [[Int!]]
+  lnn: [String]!
+  m1: [[Int!]]!
+  m2: [[Int]!]
+  ek: [Kind]!
 }
 type Mutation { set(input: Filter!): User ping: Boolean }
 type Subscription { tick: Int! changed(id: ID): User }
